@@ -4,6 +4,7 @@ import os
 
 from harness import common as C
 from translate import c11 as T
+from translate import c08 as T08
 
 ID = 'C11'
 PROPS_V = 'C11/Props.v'
@@ -42,9 +43,10 @@ def translate(ctx):
     if text is not None:
         info['changed'] = C.write_if_changed(path, text)
     else:
-        info['note'] = ('source shape not recognised; the previous Generated/Combine1fiber.v is kept and the correspondence '
+        info['restored_baseline'] = C.restore_generated('coq/Generated/Combine1fiber.v')
+        info['note'] = ('source shape not recognised; the committed Generated/Combine1fiber.v is used and the correspondence '
                         'run alone ties model to code')
-    return {'Combine1fiber': info}
+    return {'Combine1fiber': info, 'BSpline': T08.regenerate(C)}
 
 
 HEADER = '''From Coq Require Import QArith ZArith List. Import ListNotations.
